@@ -41,13 +41,27 @@ Print Assumptions C01_op_choice.
 
 Theorem C01_op_named :
   forall d name o, choose_op d name = Some o ->
-    same_name (op_name o) name = true \/ d_ops d = [o].
+    same_name (op_name o) name = true \/ (name = None /\ d_ops d = [o]).
 Proof.
   intros d name o H. unfold choose_op in H.
   destruct (find (fun o0 => same_name (op_name o0) name) (d_ops d)) eqn:E.
   - inversion H; subst. apply find_some in E. tauto.
-  - destruct (d_ops d) as [|o1 [|o2 r]]; try discriminate. inversion H; subst. auto.
+  - destruct name; [discriminate|]. destruct (d_ops d) as [|o1 [|o2 r]]; try discriminate. inversion H; subst. auto.
 Qed.
+
+(* an unknown name executes no resolver, also when the document has only one operation *)
+Theorem C01_unknown_name_no_resolver :
+  forall S G any max_depth fuel d n supplied rootobj s,
+    (forall o, In o (d_ops d) -> op_name o <> Some n) ->
+    exec_op S G any max_depth fuel d (Some n) supplied rootobj s = Done (mkResp None [mkErr [] LNone EOpChoice] [], s).
+Proof.
+  intros S G any max_depth fuel d n supplied rootobj s Hn. apply C01_op_choice.
+  unfold choose_op. destruct (find (fun o => same_name (op_name o) (Some n)) (d_ops d)) as [o|] eqn:E; [|reflexivity].
+  apply find_some in E. destruct E as [Hin Hs]. exfalso. apply (Hn o Hin).
+  unfold same_name in Hs. destruct (op_name o) as [x|]; [|discriminate]. apply Nat.eqb_eq in Hs. now subst.
+Qed.
+Print Assumptions C01_unknown_name_no_resolver.
+
 Print Assumptions C01_op_named.
 
 (* What the specification prescribes for one field selection: at most one entry, under the
